@@ -326,7 +326,11 @@ class Spline1D():
         TODO
         """
         if (hasattr(x, '__len__')):
-            result = np.empty_like(x)
+            # The values are floating point numbers (or complex, like the
+            # coefficients) whatever the type of the points (x may be a
+            # list or an array of integers)
+            result = np.empty(np.shape(x), dtype=np.result_type(
+                float, self._coeffs.dtype))
             if self._basis.cubic_uniform:
                 cu_eval_spline_1d_vector(x, self._basis.knots,
                                          self._basis.degree, self._coeffs, result, der)
